@@ -22,15 +22,28 @@ var s2Assumptions = []string{
 // s2Check registers a property check that runs witnesses first and then PRNG-generated histories under a profile function
 func s2Check(id, level, technique, rule string, quick, thorough int, floors map[string]int64, profile func(c *fw.Case) *engine.Profile) {
 	ws := witnessesFor(id)
+	directed := 0
+	if id == "C04" || id == "C10" || id == "C09" {
+		directed = 2
+	}
 	fw.Register(&fw.Check{ID: id, Level: level, Technique: technique, Rule: rule, Assumptions: s2Assumptions, Floors: floors,
 		CaseTimeout: 240e9,
 		Cases: func(tier string) int {
 			if tier == "thorough" {
-				return len(ws) + thorough
+				return len(ws) + thorough + directed
 			}
-			return len(ws) + quick
+			return len(ws) + quick + directed
 		},
 		Run: func(c *fw.Case) {
+			n := len(ws) + quick
+			if c.Tier == "thorough" {
+				n = len(ws) + thorough
+			}
+			if c.Index >= n {
+				// directed schedule (see s2ElectionSpansCommitAndApply)
+				s2ElectionSpansCommitAndApply(c, id, c.Index == n+1)
+				return
+			}
 			p := profile(c)
 			if c.Index < len(ws) {
 				c.Count("regression_witnesses_replayed", 1)
@@ -45,7 +58,7 @@ func s2Check(id, level, technique, rule string, quick, thorough int, floors map[
 		}})
 }
 
-const s2Rule = "cases = hand-written regression witnesses + PRNG-generated histories (case seed = f(VERIF_SEED, property, index)) executed on the real controllers; " +
+const s2Rule = "cases = hand-written regression witnesses + PRNG-generated histories (+ for C04, C09, C10 two directed schedules: a mastership election that spans a commit and its apply) (case seed = f(VERIF_SEED, property, index)) executed on the real controllers; " +
 	"a case is non-trivial when it logged at least one transaction; distinct_nontrivial counts distinct shape classes (set of step kinds x set of transaction outcomes)"
 
 func init() {
